@@ -383,7 +383,7 @@ def strKey (s : String) : GoVal := .str s.toUTF8.toList
 /-- the `forloop` record of iteration `i` of `n`, keys in sorted order -/
 def forloopRec (i n : Nat) (cycles : List (GoVal × GoVal)) : GoVal :=
   .map .str .any [
-    (.str dotCycles, .map .str (.int .int) cycles),
+    (.str dotCycles, .map .str .priv cycles),
     (.str [102, 105, 114, 115, 116], .bool (i == 0)),                         -- first
     (.str [105, 110, 100, 101, 120], .int .int (i + 1)),                      -- index
     (.str [105, 110, 100, 101, 120, 48], .int .int i),                        -- index0
@@ -409,13 +409,15 @@ def tablerowAfter (cols i l : Nat) : M Unit := do
   if (i + 1) % cols == 0 || i + 1 == l then
     writeM (bs "</tr>")
 
-/-- the cycle counters of the current `forloop` record: `.cycles` of the value bound to `forloop` -/
+/-- the cycle counters of the current `forloop` record: `.cycles` of the value bound to `forloop`,
+    provided it has the renderer's own unexported type `cycleCounters` (`.map .str .priv`): a record
+    bound by the caller, whatever its shape, is not accepted (`cycle must be within a forloop`) -/
 def cyclesOf (v : GoVal) : Option (List (GoVal × GoVal) × (List (GoVal × GoVal) → GoVal)) :=
   match v with
   | .map .str .any kvs =>
     (match kvs with
-     | (.str k, .map .str (.int .int) cyc) :: rest =>
-       if k == dotCycles then some (cyc, fun c => .map .str .any ((.str k, .map .str (.int .int) c) :: rest)) else none
+     | (.str k, .map .str .priv cyc) :: rest =>
+       if k == dotCycles then some (cyc, fun c => .map .str .any ((.str k, .map .str .priv c) :: rest)) else none
      | _ => none)
   | _ => none
 
